@@ -25,6 +25,10 @@
 //   RPM id D d srand reps        moments of gaussian_projection_matrix (meaningful with -DC19_PLAIN)
 //   RPP id D d srand             (-DC19_PLAIN) the std::rand answers gaussian_projection_matrix(D, d) consumes
 //                                (re-drawn after the same srand) and the matrix itself: replay of the polar method
+//   RPF id D d n r_1 .. r_n      (-DC19_PLAIN) std::rand is FORCED to answer r_1, r_2, ..., r_n, r_1, ... (the harness defines
+//                                rand(); glibc's is reached through dlsym): gaussian_projection_matrix(D, d) on an adversarial
+//                                stream (radius exactly 0, exactly 1, extreme answers); prints the matrix and the number of answers used
+//   URN id n r_1 .. r_n          (-DC19_PLAIN) tapkee::uniform_random() on the forced answers: prints the n results
 //   CPULIMIT s                   RLIMIT_CPU for this process (a hang is detected by CPU time, not by wall clock)
 // stdout: "C id" (flushed before the case runs), result lines, "END id".
 #include <sys/resource.h>
@@ -41,6 +45,21 @@
 #include <string>
 #include <unordered_map>
 #include <vector>
+
+#ifdef C19_PLAIN
+// std::rand under control of the harness (plain build only): forced answers when g_force is set, glibc's rand otherwise
+#include <dlfcn.h>
+static std::vector<int> g_forced;
+static size_t g_forced_pos = 0;
+static bool g_force = false;
+extern "C" int rand(void) noexcept
+{
+    static int (*real_rand)(void) = reinterpret_cast<int (*)(void)>(dlsym(RTLD_NEXT, "rand"));
+    if (g_force && !g_forced.empty())
+        return g_forced[g_forced_pos++ % g_forced.size()];
+    return real_rand();
+}
+#endif
 
 static double c19_uniform();
 static double c19_gaussian();
@@ -595,6 +614,59 @@ static void run_rpp(std::istream& in, const std::string& id)
     std::printf("\nEND %s\n", id.c_str());
 }
 
+#ifdef C19_PLAIN
+static bool read_forced(std::istream& in)
+{
+    int n;
+    if (!(in >> n) || n < 1 || n > 100000)
+        return false;
+    g_forced.resize(n);
+    for (int i = 0; i < n; ++i)
+        if (!(in >> g_forced[i]) || g_forced[i] < 0)
+            return false;
+    g_forced_pos = 0;
+    return true;
+}
+
+static void run_rpf(std::istream& in, const std::string& id)
+{
+    int D, d;
+    in >> D >> d;
+    if (!in || D < 1 || d < 1 || D > 64 || d > 64 || !read_forced(in))
+    {
+        std::printf("BADINPUT\nEND %s\n", id.c_str());
+        return;
+    }
+    g_force = true;
+    DenseMatrix P = tapkee_internal::gaussian_projection_matrix(D, d);
+    g_force = false;
+    std::printf("RANDMAX %lld\nUSEDRAND %zu\n", (long long)RAND_MAX, g_forced_pos);
+    std::printf("M %d %d", (int)P.rows(), (int)P.cols());
+    for (int r = 0; r < P.rows(); ++r)
+        for (int c = 0; c < P.cols(); ++c)
+            std::printf(" %a", P(r, c));
+    std::printf("\nEND %s\n", id.c_str());
+}
+
+static void run_urn(std::istream& in, const std::string& id)
+{
+    if (!read_forced(in))
+    {
+        std::printf("BADINPUT\nEND %s\n", id.c_str());
+        return;
+    }
+    g_force = true;
+    std::vector<double> us;
+    for (size_t i = 0; i < g_forced.size(); ++i)
+        us.push_back(tapkee::uniform_random());
+    g_force = false;
+    std::printf("RANDMAX %lld\nUSEDRAND %zu\nUS", (long long)RAND_MAX, g_forced_pos);
+    for (double u : us)
+        std::printf(" %a", u);
+    std::printf("\nEND %s\n", id.c_str());
+}
+#endif
+
 int main()
 {
     std::ios::sync_with_stdio(true);
@@ -627,6 +699,12 @@ int main()
             run_rpm(std::cin, id);
         else if (cmd == "RPP")
             run_rpp(std::cin, id);
+#ifdef C19_PLAIN
+        else if (cmd == "RPF")
+            run_rpf(std::cin, id);
+        else if (cmd == "URN")
+            run_urn(std::cin, id);
+#endif
         else
         {
             std::printf("BADCMD\nEND %s\n", id.c_str());
